@@ -48,6 +48,8 @@ def pdisc : List Step → Bool
     (match st with
      | .write2 f => if f.op = 8 then closeWin r else true
      | .brIfClosing _ => !closeWin r
+     | .ldClosing => false          -- the pinned `_check_writable` tests `is_closed`, then `is_closing`
+     | .chkBoth => false
      | _ => true)
 
 theorem pdisc_tail {st : Step} {r : List Step} (h : pdisc (st :: r) = true) : pdisc r = true := by
@@ -61,9 +63,10 @@ theorem pdisc_suffix {r r' : List Step} (h : r' <:+ r) (d : pdisc r = true) : pd
     · subst h; exact d
     · exact ih h (pdisc_tail d)
 
-theorem compile_pdisc (v : Variant) (cfg : Cfg) (call : Call) : pdisc (compile v cfg call) = true := by
+theorem compile_pdisc (v : Variant) (cfg : Cfg) (call : Call) (hva : v.closeAtomic = false) :
+    pdisc (compile v cfg call) = true := by
   cases call <;>
-    simp only [compile, sendData, closeBody, writeProg] <;>
+    simp only [compile, sendData, closeBody, writeProg, checks] <;>
     (repeat' split) <;> simp_all [pdisc, closeWin]
 
 theorem alt_pdisc (v : Variant) (a : Alt) : pdisc (altSteps v a) = true := by
@@ -71,7 +74,7 @@ theorem alt_pdisc (v : Variant) (a : Alt) : pdisc (altSteps v a) = true := by
 
 theorem compile_closeWin (v : Variant) (cfg : Cfg) (call : Call) : closeWin (compile v cfg call) = false := by
   cases call <;>
-    simp only [compile, sendData, closeBody, writeProg] <;>
+    simp only [compile, sendData, closeBody, writeProg, checks] <;>
     (repeat' split) <;> simp [closeWin]
 
 theorem compile_inB (v : Variant) (cfg : Cfg) (call : Call) : inB (compile v cfg call) = false := by
@@ -113,6 +116,8 @@ theorem armed_noW1 (r : List Step) (h : armed r = true) : noW1 r = false := by
     | chkSock => cases h
     | chkClosed => cases h
     | chkClosing => cases h
+    | ldClosing => cases h
+    | chkBoth => cases h
     | _ =>
       simp only [armed] at h
       have := ih h
@@ -167,11 +172,11 @@ theorem inB_step {v : Variant} {st : Step} {r r' : List Step} (m : Moves v st r 
       have hhead : headW2 r = false := by
         simp only [disc, Bool.and_eq_true] at d
         have := d.2
-        rcases hs with hs | hs | hs <;> subst hs <;> simpa using this
+        rcases hs with hs | hs | hs | hs <;> subst hs <;> simpa using this
       have hnw : noWrite r = true := noW1_noWrite r (disc_tail d) hhead hn'
       simp only [disc, Bool.and_eq_true] at d
       have := d.1.2
-      rcases hs with hs | hs | hs <;> subst hs <;> simp [outOnly, inOnly, hnw] at this
+      rcases hs with hs | hs | hs | hs <;> subst hs <;> simp [outOnly, inOnly, hnw] at this
     · subst hs
       simp only [pdisc, Bool.and_eq_true] at pd
       have := pd.2
@@ -186,14 +191,16 @@ structure PInv (v : Variant) (cfg : Cfg) (s : State) : Prop where
   p6 : ∀ t c f r, (s.th t).current v cfg = some c → c.rest = .write2 f :: r →
     ∃ pre, s.sh.wire = pre ++ [⟨t, c.idx, false, descOf f c⟩] ∧ hasClose pre = false
 
-theorem fresh_pdisc (v : Variant) (cfg : Cfg) (th : Thread) (h : th.cur = none) : pdisc (view v cfg th) = true := by
+theorem fresh_pdisc (v : Variant) (cfg : Cfg) (th : Thread) (hva : v.closeAtomic = false) (h : th.cur = none) :
+    pdisc (view v cfg th) = true := by
   rcases view_fresh v cfg th h with e | ⟨call, e⟩ <;> rw [e]
   · rfl
-  · exact compile_pdisc v cfg call
+  · exact compile_pdisc v cfg call hva
 
-theorem pInv_init (v : Variant) (cfg : Cfg) (progs : Tid → List Call) : PInv v cfg (init progs) := by
+theorem pInv_init (v : Variant) (cfg : Cfg) (progs : Tid → List Call) (hva : v.closeAtomic = false) :
+    PInv v cfg (init progs) := by
   constructor
-  · intro t; exact fresh_pdisc v cfg _ rfl
+  · intro t; exact fresh_pdisc v cfg _ hva rfl
   · intro t; exact fresh_adisc v cfg _ rfl
   · intro h; cases h
   · intro t _; rfl
@@ -205,14 +212,18 @@ theorem pInv_init (v : Variant) (cfg : Cfg) (progs : Tid → List Call) : PInv v
 /-- the thread passes the `is_closing` test only if `closing` is false -/
 theorem exec_closing (v : Variant) (t : Tid) (st : Step) (r : List Step) (sh : Shared) (c : Cur) :
     (exec v t st r sh c).1.closing = (match st with | .setClosing b => b | _ => sh.closing) := by
-  cases st <;> simp only [exec] <;> (try split) <;> rfl
+  cases st <;> simp only [exec] <;> (repeat' split) <;> rfl
+
+theorem exec_chkClosing (v : Variant) (t : Tid) (r : List Step) (sh : Shared) (c : Cur)
+    (h : sh.closing = true) : (exec v t .chkClosing r sh c).2.rest = toRelease r := by
+  simp [exec, h]
 
 theorem enabled_of_step {v : Variant} {cfg : Cfg} {s : State} {t : Tid} {c : Cur} {st : Step} {r : List Step}
     (hc : (s.th t).current v cfg = some c) (hr : c.rest = st :: r) (hb : blockedOn s.sh c = false) :
     enabled v cfg s t = true := by
   simp [enabled, hc, hb]
 
-theorem pInv_step (v : Variant) (cfg : Cfg) (s : State) (t : Tid) (calm : calmAt v cfg s t)
+theorem pInv_step (v : Variant) (cfg : Cfg) (s : State) (t : Tid) (hva : v.closeAtomic = false) (calm : calmAt v cfg s t)
     (B : Base v cfg s) (I : PInv v cfg s) : PInv v cfg (step v cfg s t) := by
   rcases step_cases v cfg s t with e | ⟨c, st, r, hc, hr, hb, e⟩
   · rw [e]; exact I
@@ -244,7 +255,7 @@ theorem pInv_step (v : Variant) (cfg : Cfg) (s : State) (t : Tid) (calm : calmAt
         rw [setTh_same]
         rcases settle_cases v cfg (s.th u) p.2 hh with ⟨_, e2, _⟩ | ⟨_, hcn⟩
         · rw [e2]; exact moves_pdisc mp pd
-        · exact fresh_pdisc v cfg _ hcn
+        · exact fresh_pdisc v cfg _ hva hcn
       · rw [vo p u hu]; exact I.pd u
     have had : ∀ p : Shared × Cur, Moves v st r p.2.rest →
         ∀ u, adisc (view v cfg ((setTh s t (settle (s.th t) p.2) p.1).th u)) = true := by
@@ -416,6 +427,12 @@ theorem pInv_step (v : Variant) (cfg : Cfg) (s : State) (t : Tid) (calm : calmAt
             rw [vArmed] at hu
             rcases moves_armed m d ad hu with ⟨h1, h2⟩ | ⟨h1, _⟩
             · -- the `is_closing` test has just been passed: `closing` was false
+              have h1 : st = .chkClosing := by
+                rcases h1 with h1 | h1
+                · exact h1
+                · subst h1
+                  simp only [pdisc, Bool.and_eq_true] at pd
+                  have := pd.2; cases this
               subst h1
               have hclosing : s.sh.closing = false := by
                 cases hx : s.sh.closing with
@@ -443,12 +460,12 @@ theorem pInv_step (v : Variant) (cfg : Cfg) (s : State) (t : Tid) (calm : calmAt
           rw [setTh_sh]
           exact p6_other p hw (by intro f h; exact hw1 ⟨f, h⟩) m u c2 f r2 hc2 hr2
 
-theorem pInv_run (v : Variant) (cfg : Cfg) (s : State) (sched : List Tid) (calm : Calm v cfg s sched)
+theorem pInv_run (v : Variant) (cfg : Cfg) (s : State) (sched : List Tid) (hva : v.closeAtomic = false) (calm : Calm v cfg s sched)
     (B : Base v cfg s) (I : PInv v cfg s) : PInv v cfg (run v cfg s sched) := by
   induction sched generalizing s with
   | nil => exact I
   | cons t r ih =>
-    exact ih _ calm.2 (base_step v cfg s t B) (pInv_step v cfg s t calm.1 B I)
+    exact ih _ calm.2 (base_step v cfg s t B) (pInv_step v cfg s t hva calm.1 B I)
 
 /-! ### a decidable test for calm schedules of finitely many threads (used for examples) -/
 
